@@ -1,8 +1,18 @@
 import Mathlib.LinearAlgebra.Matrix.PosDef
-import Mathlib.Data.Real.StarOrdered
+import Mathlib.Algebra.Order.Star.Real
+import Mathlib.Analysis.SpecialFunctions.Log.Basic
 open Matrix
+/-- rank-one part of the CMA covariance update keeps positive semidefiniteness -/
 example {n : Type} [Fintype n] [DecidableEq n] (C : Matrix n n ℝ) (hC : C.PosSemidef) (a : ℝ) (ha : 0 ≤ a)
    (v : n → ℝ) (b : ℝ) (hb : 0 ≤ b) : (a • C + b • vecMulVec v (star v)).PosSemidef := by
   apply PosSemidef.add
   · exact hC.smul ha
   · exact (posSemidef_vecMulVec_self_star v).smul hb
+/-- CMA recombination weights log(μ+½) − log i are positive for 1 ≤ i ≤ μ -/
+example (mu : ℕ) (i : ℕ) (hi : 1 ≤ i) (him : i ≤ mu) : 0 < Real.log (mu + 1/2) - Real.log i := by
+  have hi' : (0:ℝ) < i := by exact_mod_cast hi
+  have : (i:ℝ) < mu + 1/2 := by
+    have : (i:ℝ) ≤ mu := by exact_mod_cast him
+    linarith
+  have := Real.log_lt_log hi' this
+  linarith
